@@ -130,6 +130,31 @@ def extra_failures(tmp):
                         "median bkg %.4f vs %.4f" % (np.nanmedian(b_out), np.nanmedian(b_none))))
     except Exception as e:
         out.append(("sigma_filter.bscale_applied_iff_present", "filter_image with BSCALE raised %r" % (e,)))
+    # the command line: every option lands in the filter call under its own keyword, defaults leave the choice to the library
+    try:
+        from AegeanTools.CLI import BANE as cli
+        seen = []
+        real = BANE.filter_image
+        BANE.filter_image = lambda *a, **k: seen.append((a, k))
+        try:
+            pth = os.path.join(tmp, "fi.fits")
+            cli.main([pth, '--grid', '3', '5', '--box', '9', '15', '--cores', '2', '--stripes', '3', '--slice', '1', '--nomask',
+                      '--compress', '--out', os.path.join(tmp, 'cli_out')])
+            cli.main([pth])
+        finally:
+            BANE.filter_image = real
+        want1 = dict(im_name=pth, out_base=os.path.join(tmp, 'cli_out'), step_size=[3, 5], box_size=[9, 15], cores=2, mask=False,
+                     compressed=True, nslice=3, cube_index=1)
+        want2 = dict(im_name=pth, out_base=os.path.join(tmp, 'fi'), step_size=None, box_size=None, cores=None, mask=True,
+                     compressed=False, nslice=None)
+        names = ('im_name', 'out_base', 'step_size', 'box_size', 'twopass', 'cores', 'mask', 'compressed', 'nslice', 'cube_index')
+        got = [dict(zip(names, a), **k) for a, k in seen]
+        bad = len(got) != 2 or any(list(got[0].get(k)) != v if isinstance(v, list) else got[0].get(k) != v for k, v in want1.items()) \
+            or any(got[1].get(k, None) != v for k, v in want2.items()) or got[1].get('cube_index') not in (None, 0)
+        if bad:
+            out.append(("cli.options_parsed_into_the_filter_call", "command-line options reach filter_image as %r" % (got,)))
+    except SystemExit as e:
+        out.append(("cli.options_parsed_into_the_filter_call", "the command line rejected valid options (%r)" % (e,)))
     # a constant single-precision image whose value needs all 24 bits: background = that constant, noise = 0
     for cval in (16777215.0, 1234.567):
         im32 = np.full((60, 50), cval, dtype=np.float32)
